@@ -114,6 +114,24 @@ fn c04b_hash_len3() {
     assert!(hash_string(as_str(&b), ty << 8) == spec::hash_string(&t, &b, ty), "hash of a 3-byte name");
 }
 
+
+/// concrete non-ASCII names (cheap even when the code under test calls into Unicode tables): the hash
+/// folds ASCII letters only
+#[kani::proof]
+#[kani::unwind(258)]
+fn c04b_hash_nonascii_samples() {
+    let t = spec::crypt_table();
+    const NAMES: [&str; 5] = ["\u{e9}", "\u{b5}", "\u{140}", "\u{df}a", "a\u{fc}"];
+    let ty = hash_type_any();
+    let mut i = 0;
+    while i < 5 {
+        let n = NAMES[i];
+        kani::cover!(i == 4);
+        assert!(hash_string(n, ty << 8) == spec::hash_string(&t, n.as_bytes(), ty), "hash of a non-ASCII name differs from the format's HashString (only ASCII letters are folded)");
+        i += 1;
+    }
+}
+
 // ---------------------------------------------------------------- C04.c fold invariance
 
 fn fold_equal<const N: usize>(a: &[u8; N], b: &[u8; N]) -> bool {
